@@ -53,6 +53,8 @@ AccInit == [bad |-> {},          \* <<phase, op>> : the API answered badly (5xx 
             badRecorded |-> TRUE,\* every failed check was recorded with its case, request and reproduction command
             times |-> <<>>,      \* arrival times (ms) of the requests, only kept when a rate limit is configured
             rateBad |-> FALSE,
+            scenReq |-> 0,       \* requests of the current stateful scenario (reset when the thread announces a scenario)
+            stepsBad |-> FALSE,  \* a stateful scenario sent more requests than the configured number of steps
             statlost |-> 0,      \* distinct delivered failures that are missing from the CLI statistic at the end of the run
             deaths |-> 0,        \* threads that died with an uncaught exception (each is a problem that must be reported)
             exit |-> -1, nreq |-> 0]
@@ -88,6 +90,8 @@ Step ==
                  !.dup = @ \/ (IsUnit(x.ph) /\ <<x.op, x.dg>> \in acc.digests),
                  !.digests = IF IsUnit(x.ph) THEN @ \cup {<<x.op, x.dg>>} ELSE @,
                  !.reqAfterStopStateful = IF StopRequested /\ x.ph = Stateful THEN @ + 1 ELSE @,
+                 !.scenReq = IF x.ph = Stateful THEN @ + 1 ELSE @,
+                 !.stepsBad = @ \/ (x.ph = Stateful /\ acc.scenReq + 1 > Hdr.steps),
                  !.times = IF Hdr.rateL > 0 THEN Append(@, x.t) ELSE @,
                  !.rateBad = @ \/ (Hdr.rateL > 0 /\ Len(acc.times) >= Hdr.rateL
                                      /\ x.t - acc.times[Len(acc.times) - Hdr.rateL + 1] < Hdr.rateW - RateJitter)]
@@ -98,7 +102,8 @@ Step ==
             /\ UNCHANGED mon
        [] x.e = "COUNT" -> acc' = [acc EXCEPT !.limited = @ \/ x.limit] /\ UNCHANGED mon
        [] x.e = "QPUT" ->
-            /\ acc' = [acc EXCEPT !.putAfterStop = IF StopRequested /\ x.k = "ScS" THEN @ \cup {<<x.thr, CountThr(@, x.thr) + 1>>} ELSE @]
+            /\ acc' = [acc EXCEPT !.putAfterStop = IF StopRequested /\ x.k = "ScS" THEN @ \cup {<<x.thr, CountThr(@, x.thr) + 1>>} ELSE @,
+                                  !.scenReq = IF x.k = "ScS" /\ x.ph = Stateful THEN 0 ELSE @]
             /\ UNCHANGED mon
        [] x.e = "STOP" -> acc' = [acc EXCEPT !.stopped = TRUE] /\ UNCHANGED mon
        [] x.e = "CTRLC" -> acc' = [acc EXCEPT !.ctrlc = TRUE] /\ UNCHANGED mon
@@ -184,13 +189,15 @@ AtMostOneSendAfterStop == /\ \A x \in acc.afterStop : x[2] <= 1
                           /\ \A x \in acc.afterLimit : x[2] <= 1
                           /\ acc.reqAfterStopStateful <= 1
 UniqueInputs == Hdr.unique => ~acc.dup
+(* a stateful sequence never exceeds the configured number of steps (requests counted by the API between two scenario announcements) *)
+StepCountRespected == ~acc.stepsBad
 (* any rateL + 1 consecutive requests span at least one window, up to the stated scheduling jitter (timing, not logic:
    arrival times are taken by the API, the limiter works on send times) *)
 RateRespected == ~acc.rateBad
 
 AllOK == /\ ProtocolOK /\ EndProtocolOK /\ NoCrash /\ NoProblemLost /\ CliExitCode /\ DeliveredFailureCounts /\ SchemaErrorsReported /\ UnserializableReported /\ FailuresRecordedWithRequest
          /\ ZeroMeansClean /\ ExitCodeSet /\ MaxExamplesRespected /\ MaxFailuresRespected /\ LaterPhasesSkipped
-         /\ NoScenarioAfterStop /\ AtMostOneSendAfterStop /\ UniqueInputs /\ RateRespected
+         /\ NoScenarioAfterStop /\ AtMostOneSendAfterStop /\ UniqueInputs /\ RateRespected /\ StepCountRespected
 
 ViolatedClauses ==
     (IF ~ProtocolOK THEN {"C11 ProtocolOK: " \o mon.why} ELSE {}) \cup
@@ -210,7 +217,8 @@ ViolatedClauses ==
     (IF ~NoScenarioAfterStop THEN {"C12 NoScenarioAfterStop"} ELSE {}) \cup
     (IF ~AtMostOneSendAfterStop THEN {"C12 AtMostOneSendAfterStop"} ELSE {}) \cup
     (IF ~UniqueInputs THEN {"C12 UniqueInputs"} ELSE {}) \cup
-    (IF ~RateRespected THEN {"C12 RateRespected"} ELSE {})
+    (IF ~RateRespected THEN {"C12 RateRespected"} ELSE {}) \cup
+    (IF ~StepCountRespected THEN {"C12 StepCountRespected"} ELSE {})
 
 (* reporting invariant: always TRUE; one line per accepted run, one per first violation of a run *)
 Report == /\ IF AllOK THEN TRUE ELSE \A c \in ViolatedClauses : PrintT(<<"REJECT", t, l - 1, c>>)
